@@ -140,6 +140,27 @@ def main():
                     yield x
                 g = jaxtyped(tc(gen))
                 return list(g(np.zeros((3,), "float32"))) is not None
+            if op == "generator_suspended":
+                # a generator made by a decorated generator function, advanced once and kept alive (suspended) ever after
+                @jaxtyped(typechecker=tc)
+                def gen(x: alias):
+                    raiser(state["fault"])
+                    yield x
+                    yield x
+                g = gen(np.zeros((3,), "float32"))
+                KEEP.append(g)
+                return next(g) is not None
+            if op == "generator_handed_over":
+                @jaxtyped(typechecker=tc)
+                def gen2(x: alias):
+                    yield x
+                    yield x
+                @jaxtyped(typechecker=tc)
+                def add_next(g, y: alias) -> alias:
+                    return next(g) + y
+                g = gen2(np.zeros((3,), "float32"))
+                KEEP.append(g)
+                return add_next(g, np.zeros((3,), "float32")) is not None
             if op == "decorate_other":
                 @jaxtyped(typechecker=tc)
                 def h(x: alias) -> alias:
@@ -152,6 +173,8 @@ def main():
                 h.uninstall()
                 return True
             raise KeyError(op)
+
+        KEEP = []
 
         def probes(alias):
             out = {}
